@@ -5,8 +5,8 @@ CONSTANTS
   MaxNMiss = 5
   RegN = 4
   RegEmitN = 3
-  MaxNy = 3
-  MaxNlv = 3
+  MaxNy = 4
+  MaxNlv = 4
   DoEmit = TRUE
 INVARIANT ThMannWhitney
 INVARIANT ThRocMonotone
@@ -22,5 +22,10 @@ INVARIANT ThShiftInvariant
 INVARIANT ThScaleLaw
 INVARIANT ThLayout
 INVARIANT ThTablesDistinguish
+INVARIANT ThLabelSwap
+INVARIANT ThPerfectRanking
+INVARIANT ThMissingTransparent
+INVARIANT ThPrPoints
+INVARIANT ThSumIdx
 CONSTRAINT EmitCase
 CHECK_DEADLOCK FALSE
